@@ -13,6 +13,7 @@ import (
 	"strconv"
 	"strings"
 	"sync"
+	"syscall"
 	"time"
 
 	"github.com/taurusgroup/multi-party-sig/verif/fw"
@@ -36,6 +37,7 @@ func main() {
 		worker(os.Args[2], os.Args[3], mustSeed(os.Args[4]))
 	case "case": // single case in a fresh process: prints the result JSON
 		p := mustProp(os.Args[2])
+		limitMemory()
 		selfCheck()
 		n, _ := strconv.Atoi(os.Args[5])
 		res := fw.RunCase(p, os.Args[3], mustSeed(os.Args[4]), n, nil, true)
@@ -75,6 +77,12 @@ func mustSeed(s string) int64 {
 	return v
 }
 
+// limitMemory caps the address space of a worker so that a hostile allocation fails deterministically.
+func limitMemory() {
+	lim := uint64(6 << 30)
+	_ = syscall.Setrlimit(syscall.RLIMIT_AS, &syscall.Rlimit{Cur: lim, Max: lim})
+}
+
 func selfCheck() {
 	defer func() {
 		if x := recover(); x != nil {
@@ -90,6 +98,7 @@ func selfCheck() {
 // worker reads case numbers from stdin, one per line, and answers "S n" before and "R json" after each.
 func worker(prop, tier string, seed int64) {
 	p := mustProp(prop)
+	limitMemory()
 	selfCheck()
 	in := bufio.NewScanner(os.Stdin)
 	out := bufio.NewWriter(os.Stdout)
